@@ -9,13 +9,19 @@ What is proved here (for all trees / page lists):
 * the accounting test of `checkFile` (sorted concatenation of reached runs, free-list run and
   free-list entries equals `2 .. numPages-1`) holds iff those pages are pairwise distinct and are
   exactly the pages below the high-water mark (`accounting_exact`).
-Layer C (tree part): the model of one bucket's commit — replay of the reported `rebalance` steps, then
-`spill` — keeps "keys strictly ascending within and across pages, separators bound their subtrees" for
-every tree, step list and page size (`commit_keeps_tree_wellformed`); the correspondence run checks on
-every commit that this model predicts the shape the real code wrote.
-What is *not* proved: the page accounting of `commit` (which pages are freed and allocated); that is
-decided per commit by running the verified checker on the bytes the real code wrote, and by the
-free-list protocol theorems of C10.
+* the whole executable check is sound (`file_check_is_sound`), and the database's own check, as modelled,
+  accepts whatever it accepts (`own_check_agrees`);
+* the page / free-list-page writers are inverse to the decoder and local (`*_roundtrip`, `page_write_is_local`).
+Layer C: the model of one bucket's commit — replay of the reported `rebalance` steps, touches, then `spill` —
+keeps the tree invariant for every tree, step list and page size, and — PROVIDED the replayed steps leave no
+childless branch, which the run evaluates on every replay — yields a well-formed tree with strictly ascending
+contents (`commit_keeps_tree_wellformed`); its pages: what it keeps are pages of the overlay, the overlay's
+pages split into kept and freed, requests are non-empty (`commit_keeps_only_overlay_pages`,
+`commit_pages_split` — the latter is set algebra over the definition of `commitFreed` once the former is known —,
+`requests_nonempty`); and along every history of writers that free only pages of their snapshot each page is
+in exactly one of reachable / free / pending (`accounting_exact_along_histories`).
+What is *not* proved: that the real commit's allocation sequence is the model's (tied per commit: freed set,
+new-page count, exact free-list state), nor one end-to-end theorem "commit yields an accepted file".
 -/
 import Jamm.Proofs.FileCheckLemmas
 import Jamm.Proofs.CommitCompose
@@ -28,6 +34,7 @@ import Jamm.Proofs.CommitPagesLemmas
 import Jamm.Proofs.FreelistCover
 import Jamm.Proofs.CheckFileSound
 import Jamm.Proofs.ImplCheckLemmas
+import Jamm.Proofs.CommitNeb
 set_option linter.unusedSectionVars false
 open Std
 
@@ -68,16 +75,16 @@ example : wfb (K := Nat) (E := Nat) none none
     (.branch 5 (.cons 10 (.leaf 6 [(3, 0), (10, 1)]) (.cons 20 (.leaf 7 []) (.cons 30 (.leaf 8 [(30, 2)]) .nil)))) = true := by
   decide
 
-/-- commit keeps the tree invariant (separators bound their subtrees, uniform depth, no routing gap); a
-tree with the invariant and no childless branch is well-formed, so its contents are strictly ascending -/
+/-- commit keeps the tree invariant (separators bound their subtrees, uniform depth, no routing gap); when the
+replayed rebalance steps leave no childless branch (a hypothesis on the rebalanced tree, evaluated by the run on
+every real replay) the committed tree is well-formed, so its contents are strictly ascending -/
 theorem commit_keeps_tree_wellformed (pagesize hdr leafHdr branchHdr bmSize : Nat)
     (steps : List RbStep) (touched : List Bytes) (t : Tree Bytes Ent) (h : TreeInv t)
-    (hne : nebT (commitTree Gen.params pagesize hdr leafHdr branchHdr bmSize steps touched t) = true) :
-    WF none none (commitTree Gen.params pagesize hdr leafHdr branchHdr bmSize steps touched t) ∧
-    Spec.Sorted (commitTree Gen.params pagesize hdr leafHdr branchHdr bmSize steps touched t).flatten := by
-  have hi := commitTree_inv Gen.params pagesize hdr leafHdr branchHdr bmSize (by decide) (by decide) steps
-    touched t h
-  have hw := wfs_wf none none _ hi.sep hne
+    (hne : nebT ((t.rebalance steps).touchAll touched) = true) :
+    WF none none (commitTree Gen.params pagesize hdr leafHdr branchHdr (entSize bmSize) steps touched t) ∧
+    Spec.Sorted (commitTree Gen.params pagesize hdr leafHdr branchHdr (entSize bmSize) steps touched t).flatten := by
+  have hw := commitTree_wf Gen.params pagesize hdr leafHdr branchHdr (entSize bmSize) (by decide) (by decide) steps
+    touched t h hne
   exact ⟨hw, (flatten_sorted none none _ hw).1⟩
 
 /-- the executable forms the correspondence run evaluates on the real trees are sound for the invariant -/
@@ -144,30 +151,35 @@ it took exactly as many new pages as `treeRequests` says. -/
 it does not own and never keeps a node it rewrote — every list of rebalance steps, every touched key -/
 theorem commit_keeps_only_overlay_pages (pagesize : Nat) (steps : List RbStep) (touched : List Bytes)
     (pre : Tree Bytes Ent) :
-    ∀ q ∈ treeRuns Gen.layout pagesize (commitTree Gen.params pagesize Gen.layout.pageSize Gen.layout.leafSize
-        Gen.layout.branchSize Gen.layout.bmSize steps touched pre),
-      q ∈ treeRuns Gen.layout pagesize pre :=
-  commitTree_runs_sub Gen.layout pagesize Gen.params Gen.layout.pageSize Gen.layout.leafSize Gen.layout.branchSize
-    Gen.layout.bmSize steps touched pre
+    ∀ q ∈ treeRuns Gen.layout pagesize (entSize Gen.layout.bmSize)
+        (commitTree Gen.params pagesize Gen.layout.pageSize Gen.layout.leafSize
+          Gen.layout.branchSize (entSize Gen.layout.bmSize) steps touched pre),
+      q ∈ treeRuns Gen.layout pagesize (entSize Gen.layout.bmSize) pre :=
+  commitTree_runs_sub Gen.layout pagesize (entSize Gen.layout.bmSize) Gen.params Gen.layout.pageSize
+    Gen.layout.leafSize Gen.layout.branchSize
+    (entSize Gen.layout.bmSize) steps touched pre
 
 /-- the overlay's pages split exactly into those the committed tree keeps and those the commit frees; the
 freed ones are pages of the overlay (the release protocol's client condition), none twice -/
 theorem commit_pages_split (pagesize : Nat) (steps : List RbStep) (touched : List Bytes) (pre : Tree Bytes Ent) (q : Nat) :
     let post := commitTree Gen.params pagesize Gen.layout.pageSize Gen.layout.leafSize Gen.layout.branchSize
-        Gen.layout.bmSize steps touched pre
-    q ∈ treeRuns Gen.layout pagesize pre ↔
-      (q ∈ treeRuns Gen.layout pagesize post ∨ q ∈ commitFreed Gen.layout pagesize pre post) :=
-  commit_pages_partition Gen.layout pagesize Gen.params Gen.layout.pageSize Gen.layout.leafSize Gen.layout.branchSize
-    Gen.layout.bmSize steps touched pre q
+        (entSize Gen.layout.bmSize) steps touched pre
+    q ∈ treeRuns Gen.layout pagesize (entSize Gen.layout.bmSize) pre ↔
+      (q ∈ treeRuns Gen.layout pagesize (entSize Gen.layout.bmSize) post ∨
+        q ∈ commitFreed Gen.layout pagesize (entSize Gen.layout.bmSize) pre post) :=
+  commit_pages_partition Gen.layout pagesize (entSize Gen.layout.bmSize) Gen.params Gen.layout.pageSize
+    Gen.layout.leafSize Gen.layout.branchSize
+    (entSize Gen.layout.bmSize) steps touched pre q
 
 theorem freed_pages_distinct (pagesize : Nat) (pre post : Tree Bytes Ent)
-    (h : (treeRuns Gen.layout pagesize pre).Nodup) : (commitFreed Gen.layout pagesize pre post).Nodup :=
-  commitFreed_nodup Gen.layout pagesize pre post h
+    (h : (treeRuns Gen.layout pagesize (entSize Gen.layout.bmSize) pre).Nodup) :
+    (commitFreed Gen.layout pagesize (entSize Gen.layout.bmSize) pre post).Nodup :=
+  commitFreed_nodup Gen.layout pagesize (entSize Gen.layout.bmSize) pre post h
 
 /-- every run the commit requests is non-empty -/
 theorem requests_nonempty (pagesize : Nat) (hps : 0 < pagesize) (t : Tree Bytes Ent) :
-    ∀ n ∈ treeRequests Gen.layout pagesize t, 0 < n :=
-  treeRequests_pos Gen.layout pagesize hps (by decide) t
+    ∀ n ∈ treeRequests Gen.layout pagesize (entSize Gen.layout.bmSize) t, 0 < n :=
+  treeRequests_pos Gen.layout pagesize (entSize Gen.layout.bmSize) hps (by decide) t
 
 /-- "never two of these and never none" at the level of the release protocol: for every history of writers
 that free only pages of the snapshot they started from (which the three theorems above say of the commit
